@@ -1274,6 +1274,44 @@ where
     node.update_leading_trivia(FormatTriviaType::Replace(leading_trivia))
 }
 
+/// Joins trivia which is going to be printed one after the other behind a token, on the same line.
+/// Anything that follows a single line comment on its line becomes part of that comment, so a comment which would end
+/// up behind a single line comment is moved onto a line of its own instead, indented by `shape`.
+pub fn join_trailing_trivia(
+    ctx: &Context,
+    shape: Shape,
+    first: Vec<Token>,
+    second: Vec<Token>,
+) -> Vec<Token> {
+    let mut trivia = first;
+    trivia.extend(second);
+
+    let mut joined: Vec<Token> = Vec::with_capacity(trivia.len());
+    let mut behind_singleline_comment = false;
+
+    for token in trivia {
+        if behind_singleline_comment && trivia_is_comment(&token) {
+            // Remove the spacing which separated the comment from what was in front of it on the line
+            while joined.last().map_or(false, trivia_is_whitespace) {
+                joined.pop();
+            }
+            joined.push(create_newline_trivia(ctx));
+            joined.push(create_indent_trivia(ctx, shape));
+            behind_singleline_comment = false;
+        }
+
+        if trivia_is_singleline_comment(&token) {
+            behind_singleline_comment = true;
+        } else if trivia_is_newline(&token) {
+            behind_singleline_comment = false;
+        }
+
+        joined.push(token);
+    }
+
+    joined
+}
+
 #[cfg(test)]
 mod tests {
     use super::*;
